@@ -63,6 +63,8 @@ type Term struct {
 	K    uint64 // constant value, or hi<<8|lo for extract
 	Name string // for OpVar
 	id   uint32
+	Lo   uint64 // unsigned interval (bit-vector terms)
+	Hi   uint64
 }
 
 type termKey struct {
@@ -79,6 +81,7 @@ type TermTable struct {
 	next uint32
 	tt   *Term
 	ff   *Term
+	vr   map[string][2]uint64 // declared ranges of variables
 }
 
 func NewTermTable() *TermTable {
@@ -103,7 +106,185 @@ func (tt *TermTable) mk(op Op, w uint8, a, b, c *Term, k uint64, name string) *T
 	t := &Term{Op: op, W: w, A: a, B: b, C: c, K: k, Name: name, id: tt.next}
 	tt.next++
 	tt.m[key] = t
+	tt.setRange(t)
 	return t
+}
+
+// setRange computes a sound unsigned interval [Lo,Hi] for bit-vector terms
+// (no wrap-around inside the interval).  It feeds cheap simplifications:
+// comparisons decided by disjoint intervals and division/remainder of
+// q*c+r by the constant c.
+func (tt *TermTable) setRange(t *Term) {
+	if t.W == 0 {
+		return
+	}
+	m := mask(t.W)
+	t.Lo, t.Hi = 0, m
+	switch t.Op {
+	case OpConst:
+		t.Lo, t.Hi = t.K, t.K
+	case OpVar:
+		if r, ok := tt.vr[t.Name]; ok {
+			t.Lo, t.Hi = r[0], r[1]
+		}
+	case OpAdd:
+		hi, c1 := bits.Add64(t.A.Hi, t.B.Hi, 0)
+		if c1 == 0 && hi <= m {
+			t.Lo, t.Hi = t.A.Lo+t.B.Lo, hi
+		} else if t.B.Op == OpConst && t.B.K > m>>1 {
+			// x + (-d): a subtraction in disguise
+			d := (m - t.B.K) + 1
+			if t.A.Lo >= d {
+				t.Lo, t.Hi = t.A.Lo-d, t.A.Hi-d
+			}
+		}
+	case OpSub:
+		if t.A.Lo >= t.B.Hi {
+			t.Lo, t.Hi = t.A.Lo-t.B.Hi, t.A.Hi-t.B.Lo
+		}
+	case OpMul:
+		h, l := bits.Mul64(t.A.Hi, t.B.Hi)
+		if h == 0 && l <= m {
+			t.Lo, t.Hi = t.A.Lo*t.B.Lo, l
+		}
+	case OpZext:
+		t.Lo, t.Hi = t.A.Lo, t.A.Hi
+	case OpExtract:
+		if t.K&0xff == 0 && t.A.Hi <= m {
+			t.Lo, t.Hi = t.A.Lo, t.A.Hi
+		}
+	case OpIte:
+		t.Lo, t.Hi = t.B.Lo, t.B.Hi
+		if t.C.Lo < t.Lo {
+			t.Lo = t.C.Lo
+		}
+		if t.C.Hi > t.Hi {
+			t.Hi = t.C.Hi
+		}
+	case OpBand:
+		t.Hi = t.A.Hi
+		if t.B.Hi < t.Hi {
+			t.Hi = t.B.Hi
+		}
+	case OpUrem:
+		if t.B.Lo > 0 {
+			t.Hi = t.B.Hi - 1
+			if t.A.Hi < t.Hi {
+				t.Hi = t.A.Hi
+			}
+		}
+	case OpUdiv:
+		if t.B.Lo > 0 {
+			t.Lo, t.Hi = t.A.Lo/t.B.Hi, t.A.Hi/t.B.Lo
+		}
+	case OpLshr:
+		if t.B.Op == OpConst && t.B.K < 64 {
+			t.Lo, t.Hi = t.A.Lo>>t.B.K, t.A.Hi>>t.B.K
+		}
+	case OpSrem, OpSdiv:
+		// non-negative operands behave as unsigned
+		sm := m >> 1
+		if t.A.Hi <= sm && t.B.Hi <= sm && t.B.Lo > 0 {
+			if t.Op == OpSrem {
+				t.Hi = t.B.Hi - 1
+				if t.A.Hi < t.Hi {
+					t.Hi = t.A.Hi
+				}
+			} else {
+				t.Lo, t.Hi = t.A.Lo/t.B.Hi, t.A.Hi/t.B.Lo
+			}
+		}
+	}
+}
+
+// VarRange creates a variable known to lie in the unsigned interval [lo,hi]
+// (the caller is responsible for asserting that constraint).
+func (tt *TermTable) VarRange(w uint8, name string, lo, hi uint64) *Term {
+	if tt.vr == nil {
+		tt.vr = make(map[string][2]uint64)
+	}
+	tt.vr[name] = [2]uint64{lo, hi}
+	return tt.Var(w, name)
+}
+
+// basePlus views t as x + k (k a signed offset) when the interval of t shows
+// that the addition did not wrap; any other term is itself plus 0.
+func basePlus(t *Term) (*Term, int64, bool) {
+	if t.Op == OpAdd && t.B.Op == OpConst {
+		m := mask(t.W)
+		k := sext64(t.B.K, t.W)
+		x := t.A
+		if k >= 0 {
+			if hi, c := bits.Add64(x.Hi, uint64(k), 0); c == 0 && hi <= m {
+				return x, k, true
+			}
+			return nil, 0, false
+		}
+		if x.Lo >= uint64(-k) {
+			return x, k, true
+		}
+		return nil, 0, false
+	}
+	return t, 0, true
+}
+
+// divParts recognises x = q*c + r (no overflow, r < c) for the constant c.
+func (tt *TermTable) divParts(x *Term, c uint64) (q, r *Term, ok bool) {
+	if c == 0 {
+		return nil, nil, false
+	}
+	if x.Hi < c {
+		return tt.Const(x.W, 0), x, true
+	}
+	isMulC := func(t *Term) (*Term, bool) {
+		if t.Op == OpMul && t.B.Op == OpConst && t.B.K == c && t.Hi != mask(t.W) {
+			return t.A, true
+		}
+		if t.Op == OpMul && t.B.Op == OpConst && t.B.K == c {
+			// exact full-range product cannot be told apart from overflow
+			h, _ := bits.Mul64(t.A.Hi, c)
+			if h == 0 && t.A.Hi*c <= mask(t.W) {
+				return t.A, true
+			}
+		}
+		return nil, false
+	}
+	if qq, ok := isMulC(x); ok {
+		return qq, tt.Const(x.W, 0), true
+	}
+	if x.Op == OpAdd {
+		// sum must not overflow: its interval was computed without wrap iff Hi < mask or operands small
+		hi, c1 := bits.Add64(x.A.Hi, x.B.Hi, 0)
+		if c1 == 0 && hi <= mask(x.W) {
+			if qq, ok := isMulC(x.A); ok && x.B.Hi < c {
+				return qq, x.B, true
+			}
+			if qq, ok := isMulC(x.A); ok && x.B.Op == OpConst {
+				// q*c + K with K >= c:  (q + K/c)*c + K%c
+				return tt.Bin(OpAdd, qq, tt.Const(x.W, x.B.K/c)), tt.Const(x.W, x.B.K%c), true
+			}
+		}
+	}
+	if x.Op == OpAdd && x.B.Op == OpConst && x.B.K > mask(x.W)>>1 {
+		// q*c - d  =  (q-e)*c + (e*c-d)  with e = ceil(d/c), valid when q >= e
+		d := (mask(x.W) - x.B.K) + 1
+		if qq, ok := isMulC(x.A); ok && d < 1<<32 && c < 1<<31 {
+			e := (d + c - 1) / c
+			if qq.Lo >= e {
+				return tt.Bin(OpSub, qq, tt.Const(x.W, e)), tt.Const(x.W, e*c-d), true
+			}
+		}
+	}
+	if x.Op == OpAdd {
+		hi, c1 := bits.Add64(x.A.Hi, x.B.Hi, 0)
+		if c1 != 0 || hi > mask(x.W) {
+			return nil, nil, false
+		}
+		if qq, ok := isMulC(x.B); ok && x.A.Hi < c {
+			return qq, x.A, true
+		}
+	}
+	return nil, nil, false
 }
 
 func mask(w uint8) uint64 {
@@ -211,6 +392,23 @@ func (tt *TermTable) Eq(a, b *Term) *Term {
 	}
 	if a.Op == OpConst && b.Op == OpConst {
 		return tt.Bool(a.K == b.K)
+	}
+	if a.W != 0 && (a.Hi < b.Lo || b.Hi < a.Lo) {
+		return tt.ff
+	}
+	if a.W != 0 {
+		// x+k1 == x+k2  <=>  k1 == k2  (valid modulo 2^w)
+		xa, ka := a, uint64(0)
+		if a.Op == OpAdd && a.B.Op == OpConst {
+			xa, ka = a.A, a.B.K
+		}
+		xb, kb := b, uint64(0)
+		if b.Op == OpAdd && b.B.Op == OpConst {
+			xb, kb = b.A, b.B.K
+		}
+		if xa == xb && (xa != a || xb != b) {
+			return tt.Bool(ka == kb)
+		}
 	}
 	if a.W == 0 {
 		if a.Op == OpConst {
@@ -324,6 +522,43 @@ func (tt *TermTable) cmp(op Op, a, b *Term) *Term {
 	}
 	if a == b {
 		return tt.Bool(op == OpUle || op == OpSle)
+	}
+	{
+		// x+k1 versus x+k2 (no wrap-around by the intervals): compare the offsets
+		sm := mask(a.W) >> 1
+		xa, ka, oka := basePlus(a)
+		xb, kb, okb := basePlus(b)
+		if oka && okb && xa == xb && (op == OpUlt || op == OpUle || (a.Hi <= sm && b.Hi <= sm)) {
+			switch op {
+			case OpUlt, OpSlt:
+				return tt.Bool(ka < kb)
+			default:
+				return tt.Bool(ka <= kb)
+			}
+		}
+	}
+	{
+		// decide by intervals (signed comparisons only when both sides are non-negative)
+		sm := mask(a.W) >> 1
+		unsignedOK := op == OpUlt || op == OpUle || (a.Hi <= sm && b.Hi <= sm)
+		if unsignedOK {
+			switch op {
+			case OpUlt, OpSlt:
+				if a.Hi < b.Lo {
+					return tt.tt
+				}
+				if a.Lo >= b.Hi {
+					return tt.ff
+				}
+			case OpUle, OpSle:
+				if a.Hi <= b.Lo {
+					return tt.tt
+				}
+				if a.Lo > b.Hi {
+					return tt.ff
+				}
+			}
+		}
 	}
 	switch op {
 	case OpUlt:
@@ -474,6 +709,20 @@ func (tt *TermTable) Bin(op Op, a, b *Term) *Term {
 			return tt.Const(w, v)
 		}
 	}
+	if b.Op == OpConst && b.K != 0 {
+		sm := mask(w) >> 1
+		switch op {
+		case OpUdiv, OpUrem, OpSdiv, OpSrem:
+			if op == OpUdiv || op == OpUrem || (a.Hi <= sm && b.K <= sm) {
+				if q, r, ok := tt.divParts(a, b.K); ok {
+					if op == OpUdiv || op == OpSdiv {
+						return q
+					}
+					return r
+				}
+			}
+		}
+	}
 	switch op {
 	case OpAdd, OpMul, OpBand, OpBor, OpBxor:
 		// commutative: constant to the right
@@ -538,12 +787,8 @@ func (tt *TermTable) Bin(op Op, a, b *Term) *Term {
 	}
 	if a.Op == OpConst && a.K == 0 {
 		switch op {
-		case OpShl, OpLshr, OpAshr, OpUdiv, OpUrem:
-			// 0 op x == 0 (udiv by zero gives all-ones in SMT, but the
-			// interpreter guards division by zero before building the term)
-			if op != OpUdiv && op != OpUrem {
-				return a
-			}
+		case OpShl, OpLshr, OpAshr:
+			return a
 		}
 	}
 	return tt.mk(op, w, a, b, nil, 0, "")
@@ -646,6 +891,18 @@ func (tt *TermTable) Zext(a *Term, w uint8) *Term {
 	}
 	if a.Op == OpZext {
 		return tt.Zext(a.A, w)
+	}
+	// push the extension through additions / multiplications that provably do not
+	// wrap at the narrow width (keeps q*c+r visible to the division rules)
+	switch a.Op {
+	case OpAdd:
+		if hi, c := bits.Add64(a.A.Hi, a.B.Hi, 0); c == 0 && hi <= mask(a.W) {
+			return tt.Bin(OpAdd, tt.Zext(a.A, w), tt.Zext(a.B, w))
+		}
+	case OpMul:
+		if h, l := bits.Mul64(a.A.Hi, a.B.Hi); h == 0 && l <= mask(a.W) {
+			return tt.Bin(OpMul, tt.Zext(a.A, w), tt.Zext(a.B, w))
+		}
 	}
 	return tt.mk(OpZext, w, a, nil, nil, 0, "")
 }
@@ -796,6 +1053,7 @@ type smtWriter struct {
 	defined map[*Term]string // term -> symbol (for defined nodes)
 	sb      *strings.Builder // pending definitions
 	n       int
+	divs    map[interface{}][2]string
 }
 
 func newSMTWriter() *smtWriter {
@@ -826,6 +1084,12 @@ func (w *smtWriter) ref(t *Term) string {
 		e = fmt.Sprintf("((_ zero_extend %d) %s)", t.W-t.A.W, w.ref(t.A))
 	case OpSext:
 		e = fmt.Sprintf("((_ sign_extend %d) %s)", t.W-t.A.W, w.ref(t.A))
+	case OpUdiv, OpUrem, OpSdiv, OpSrem:
+		if name, ok := w.divByConst(t); ok {
+			w.defined[t] = name
+			return name
+		}
+		e = "(" + opNames[t.Op] + " " + w.ref(t.A) + " " + w.ref(t.B) + ")"
 	default:
 		e = "(" + opNames[t.Op] + " " + w.ref(t.A) + " " + w.ref(t.B) + ")"
 	}
@@ -834,6 +1098,72 @@ func (w *smtWriter) ref(t *Term) string {
 	fmt.Fprintf(w.sb, "(define-fun %s () %s %s)\n", name, sortStr(t.W), e)
 	w.defined[t] = name
 	return name
+}
+
+// divByConst encodes x / c and x % c for a constant divisor c (c > 0 as a
+// signed number when the operation is signed) without a divider circuit:
+// fresh constants q, r with  |x| = q*c + r,  r < c,  q <= MAX/c  are declared
+// and the defining constraints asserted at the current (path) level.  The
+// constants are functionally determined by x, so asserting the definition
+// does not restrict x.  Multiplication by a constant bit-blasts to a few
+// shift-adds, where the 64-bit divider circuit stalls all three back ends.
+func (w *smtWriter) divByConst(t *Term) (string, bool) {
+	if t.B.Op != OpConst || t.B.K == 0 {
+		return "", false
+	}
+	c := t.B.K
+	W := t.W
+	signed := t.Op == OpSdiv || t.Op == OpSrem
+	if signed && sext64(c, W) <= 0 {
+		return "", false
+	}
+	type dk struct {
+		x      *Term
+		c      uint64
+		signed bool
+	}
+	if w.divs == nil {
+		w.divs = make(map[interface{}][2]string)
+	}
+	key := dk{t.A, c, signed}
+	names, ok := w.divs[key]
+	if !ok {
+		x := w.ref(t.A)
+		w.n++
+		q := fmt.Sprintf("dq!%d", w.n)
+		r := fmt.Sprintf("dr!%d", w.n)
+		srt := sortStr(W)
+		cs := constStr(W, c)
+		fmt.Fprintf(w.sb, "(declare-const %s %s)\n(declare-const %s %s)\n", q, srt, r, srt)
+		ax := x
+		if signed {
+			ax = fmt.Sprintf("(ite (bvslt %s %s) (bvneg %s) %s)", x, constStr(W, 0), x, x)
+		}
+		maxq := mask(W) / c
+		if !signed || t.A.Hi <= mask(W)>>1 {
+			// the operand's known interval bounds the quotient (kills the high bits early)
+			if t.A.Hi/c < maxq {
+				maxq = t.A.Hi / c
+			}
+		}
+		// q <= MAX/c rules out overflow of q*c; r <= |x| rules out wrap-around of q*c + r
+		fmt.Fprintf(w.sb, "(assert (= %s (bvadd (bvmul %s %s) %s)))\n(assert (bvult %s %s))\n(assert (bvule %s %s))\n(assert (bvule %s %s))\n",
+			ax, q, cs, r, r, cs, q, constStr(W, maxq), r, ax)
+		if signed {
+			w.n++
+			sq := fmt.Sprintf("dq!%d", w.n)
+			sr := fmt.Sprintf("dr!%d", w.n)
+			fmt.Fprintf(w.sb, "(define-fun %s () %s (ite (bvslt %s %s) (bvneg %s) %s))\n", sq, srt, x, constStr(W, 0), q, q)
+			fmt.Fprintf(w.sb, "(define-fun %s () %s (ite (bvslt %s %s) (bvneg %s) %s))\n", sr, srt, x, constStr(W, 0), r, r)
+			q, r = sq, sr
+		}
+		names = [2]string{q, r}
+		w.divs[key] = names
+	}
+	if t.Op == OpUdiv || t.Op == OpSdiv {
+		return names[0], true
+	}
+	return names[1], true
 }
 
 // String renders a term inline for diagnostics (may be exponential on DAGs; cut at depth).
